@@ -300,4 +300,13 @@ def decodeCommand (st : DecState) (segs : List Seg) (peek : Bool) : DecOut :=
       { ret := .val 0, st := { st with len := len, curr := st.pos + len }, store := store,
         reads := (List.range (store.length - pos)).map (· + pos) }
 
+/-- model of a receiver of command text: the stream arrives in pieces appended to one segment, the
+    decoder is called after every arrival; result of the first call that does not return 0 -/
+def arriveCmd (a : Nat) : DecState → List Byte → List (List Byte) → Option DecOut
+  | _, _, [] => none
+  | st, store, p :: ps =>
+    if (decodeCommand st [(a, store ++ p)] false).ret = .val 0 then
+      arriveCmd a (decodeCommand st [(a, store ++ p)] false).st (decodeCommand st [(a, store ++ p)] false).store ps
+    else some (decodeCommand st [(a, store ++ p)] false)
+
 end Mpt.Codec
